@@ -21,7 +21,7 @@
 (* Rollover is not a step of its own: it runs inside Write, as in          *)
 (* FileStream.__call__.                                                    *)
 (***************************************************************************)
-EXTENDS Integers, Sequences, FiniteSets, TLC, IOUtils, Json
+EXTENDS Integers, Sequences, FiniteSets, TLC, Json
 
 CONSTANTS
     Ms,            \* values of max_bytes explored     (Init chooses one)
@@ -31,7 +31,8 @@ CONSTANTS
     Extras(_),     \* Extras(n): possible values of (bytes appended - n) for a write with len n
     PreSizes,      \* sizes of backup files that exist before the stream is created
     PreActive,     \* sizes of an active file that exists before the stream is created
-    MaxSteps,      \* length of a behaviour (writes + reopens)
+    MaxWrites,     \* number of writes in a behaviour (close/reopen steps come on top)
+    EmitHist,      \* TRUE in the simulation runs that feed the replay: record and print the history
     Dev_RawLenTest \* TRUE = as coded: _should_rollover tests len(data['data']), which is not the
                    \* number of bytes write_data appends (time_format prefix + newline, non-ASCII text)
 
@@ -43,11 +44,14 @@ VARIABLES
     total,
     small,         \* premise of C20_Size: every write so far appended fewer than M bytes
     lastExtra,     \* x of the latest write (0 initially): used by the finding signature only
-    ns,            \* steps taken
+    nw,            \* writes done
     hist           \* history of the behaviour, for the replay on the real object (not in the VIEW)
 
-vars == <<M, N, base, active, backup, total, small, lastExtra, ns, hist>>
-View == <<M, N, base, active, backup, total, small, lastExtra, ns>>
+vars == <<M, N, base, active, backup, total, small, lastExtra, nw, hist>>
+View == <<M, N, base, active, backup, total, small, lastExtra, nw>>
+
+\* simulation runs that feed the replay on the real object set EmitHist; only then is hist recorded
+Emitting  == EmitHist
 
 None      == [ex |-> FALSE, lo |-> 0, hi |-> 0]
 File(l,h) == [ex |-> TRUE, lo |-> l, hi |-> h]
@@ -82,7 +86,7 @@ Init ==
           /\ total = SumAbove(sz, 0) + pa
     /\ small = TRUE
     /\ lastExtra = 0
-    /\ ns = 0
+    /\ nw = 0
     /\ hist = << <<0, 0, 0, 0, Snapshot>> >>      \* step 0: the directory before the stream exists
 
 (***************************************************************************)
@@ -120,29 +124,30 @@ Write(n, x) ==
         /\ total' = total + w
         /\ small' = (small /\ w < M)
         /\ lastExtra' = x
-        /\ ns' = ns + 1
-        /\ hist' = Append(hist, <<1, n, x, IF roll THEN 1 ELSE 0, Snapshot'>>)
+        /\ nw' = nw + 1
+        /\ hist' = IF Emitting THEN Append(hist, <<1, n, x, IF roll THEN 1 ELSE 0, Snapshot'>>) ELSE hist
         /\ UNCHANGED <<M, N, base>>
 
+\* No effect on the files, hence a self-loop of the state graph (hist is outside the VIEW); in the emitted
+\* behaviours it is a step of its own, replayed as close()/open() or as a new FileStream object.
 CloseReopen ==
-    /\ ns' = ns + 1
-    /\ hist' = Append(hist, <<2, 0, 0, 0, Snapshot>>)
-    /\ UNCHANGED <<M, N, base, active, backup, total, small, lastExtra>>
+    /\ nw <= MaxWrites
+    /\ Emitting => hist[Len(hist)][1] # 2      \* emitted behaviours: no two reopens in a row
+    /\ hist' = IF Emitting THEN Append(hist, <<2, 0, 0, 0, Snapshot>>) ELSE hist
+    /\ UNCHANGED <<M, N, base, active, backup, total, small, lastExtra, nw>>
 
-Emitting == "C20_EMIT" \in DOMAIN IOEnv     \* simulation runs that feed the replay on the real object
-
-\* closing step of an emitted behaviour: the single successor of the last state, so that Emit (a
-\* CONSTRAINT, which the simulator evaluates on every candidate successor) fires once per behaviour
+\* closing step of an emitted behaviour: a single successor, so that Emit (a CONSTRAINT, which the
+\* simulator evaluates on every candidate successor) fires once per behaviour
 Finish ==
     /\ Emitting
-    /\ ns = MaxSteps
-    /\ ns' = MaxSteps + 1
+    /\ nw = MaxWrites
+    /\ nw' = MaxWrites + 1
     /\ UNCHANGED <<M, N, base, active, backup, total, small, lastExtra, hist>>
 
 Next ==
-    \/ /\ ns < MaxSteps
-       /\ \/ \E n \in Sizes(M) : \E x \in Extras(n) : Write(n, x)
-          \/ CloseReopen
+    \/ /\ nw < MaxWrites
+       /\ \E n \in Sizes(M) : \E x \in Extras(n) : Write(n, x)
+    \/ CloseReopen
     \/ Finish
 
 Spec == Init /\ [][Next]_vars
@@ -177,12 +182,12 @@ KF_RawLen   == lastExtra > 0 /\ FLen(active) - lastExtra < M
 C20_Size_KF == C20_Size \/ KF_RawLen
 
 (***************************************************************************)
-(* Behaviours for the replay: with C20_EMIT in the environment, every      *)
-(* behaviour that reaches MaxSteps is printed (simulation mode) as         *)
+(* Behaviours for the replay: with EmitHist = TRUE, every                  *)
+(* behaviour that completes MaxWrites is printed (simulation mode) as         *)
 (* <<M, N, base, <<op, n, x, rolled, <<active.lo, active.hi, backups>>>>>> *)
 (* with op 0 = initial directory, 1 = Write, 2 = CloseReopen.              *)
 (***************************************************************************)
 Emit ==
-    (ns = MaxSteps + 1 /\ Emitting) => PrintT("BEH " \o ToJson(<<M, N, base, hist>>))
+    (nw = MaxWrites + 1 /\ Emitting) => PrintT("BEH " \o ToJson(<<M, N, base, hist>>))
 
 =============================================================================
